@@ -357,7 +357,9 @@ def rule_R13(src, stats):
 
 
 def rule_R14(src, stats):
-    """.map(Path::Variant) (tuple-variant constructor passed as a function value) -> .map(|vx_eN| Path::Variant(vx_eN))  (eta expansion)"""
+    """.map(Path::Variant) (tuple-variant constructor passed as a function value)
+    -> .map(|vx_eN| -> (vx_rN: _) ensures vx_same(vx_rN, Path::Variant(vx_eN)) { Path::Variant(vx_eN) })
+    (eta expansion; the closure's ensures restates its body; needs `spec fn vx_same<T>(a: T, b: T) -> bool { a == b }` in the unit)"""
     code = _toks(src)
     spans = []
     for i in range(len(code) - 6):
@@ -366,7 +368,8 @@ def rule_R14(src, stats):
                 and code[i + 6].text[:1].isupper() and code[i + 7].text == ")"):
             n = stats.get("R14", 0)
             path = src[code[i + 3].start:code[i + 6].end]
-            spans.append((code[i + 3].start, code[i + 6].end, "|vx_e%d| %s(vx_e%d)" % (n, path, n)))
+            spans.append((code[i + 3].start, code[i + 6].end,
+                          "|vx_e%d| -> (vx_r%d: _) ensures vx_same(vx_r%d, %s(vx_e%d)) { %s(vx_e%d) }" % (n, n, n, path, n, path, n)))
             stats["R14"] = n + 1
     return _replace_spans(src, spans)
 
@@ -470,6 +473,39 @@ RULES["R41"] = rule_R41
 RULE_DOC["R41"] = rule_R41.__doc__.strip()
 
 
+def rule_R42(src, stats):
+    """R2 for a structured element pattern: for (I, PAT) in E.iter().enumerate() { B }  ->  for I in 0..E.len() { let PAT = &E[I]; B }
+    (PAT any parenthesised pattern, e.g. `(_, jlength)`; E a plain identifier)"""
+    while True:
+        code = _toks(src)
+        hit = False
+        for (kw, bopen, bclose) in _loops(code):
+            if code[kw].text != "for" or code[kw + 1].text != "(":
+                continue
+            pclose = match_close(code, kw + 1)
+            hdr_rest = [t.text for t in code[pclose + 1:bopen]]
+            if len(hdr_rest) != 10 or hdr_rest[0] != "in" or hdr_rest[2:] != [".", "iter", "(", ")", ".", "enumerate", "(", ")"]:
+                continue
+            if code[kw + 2].kind != "ident" or code[kw + 3].text != "," or code[kw + 4].text != "(":
+                continue
+            if match_close(code, kw + 4) != pclose - 1:
+                continue
+            i_ = code[kw + 2].text
+            pat = src[code[kw + 4].start:code[pclose - 1].end]
+            e_ = hdr_rest[1]
+            src = _replace_spans(src, [(code[kw].start, code[bopen].end,
+                                        "for %s in 0..%s.len() { let %s = &%s[%s];" % (i_, e_, pat, e_, i_))])
+            stats["R42"] = stats.get("R42", 0) + 1
+            hit = True
+            break
+        if not hit:
+            return src
+
+
+RULES["R42"] = rule_R42
+RULE_DOC["R42"] = rule_R42.__doc__.strip()
+
+
 def rule_R22(src, stats):
     """(dual of R11/R21) the binary tail of `fn F(P1, .., Pn)`, i.e. every statement after the first top-level
     `if !is_jsonb(..) .. {..} [else if ..{..}]* [else {..}]` chain of the body, -> `vx_tail_F(P1, .., Pn)`: the text ladder is
@@ -547,6 +583,71 @@ def rule_R51(src, stats):
 
 
 RULE_DOC["R51"] = rule_R51.__doc__.strip()
+
+
+def rule_R52(src, stats):
+    """closure whose single parameter is a tuple pattern: `|(P1, .., Pn)| BODY` -> `|vx_cN| { let (P1, .., Pn) = vx_cN; BODY }`
+    (N = ordinal of the rewritten closure in the fn; BODY = the block after the bars, or the expression up to the next `,`/`)` at
+    the closure's nesting depth).  Verus only accepts variables as closure parameters; the closure's requires/ensures are given
+    with `#!! after 1 `|vx_cN|`` (Verus verifies a closure body against the closure's own contract)."""
+    n = 0
+    while True:
+        code = _toks(src)
+        hit = False
+        for i in range(len(code) - 2):
+            if code[i].text == "|" and code[i + 1].text == "(" and code[i - 1].text in ("(", ",", "="):
+                pe = match_close(code, i + 1)
+                if code[pe + 1].text != "|":
+                    continue
+                b = pe + 2
+                if code[b].text == "{":
+                    e = match_close(code, b)       # block body: keep it as the tail expression of the new block
+                    end = code[e].end
+                else:
+                    d, k = 0, b
+                    while True:
+                        t = code[k].text
+                        if t in ("(", "[", "{"):
+                            d += 1
+                        elif t in (")", "]", "}"):
+                            if d == 0:
+                                break
+                            d -= 1
+                        elif t == "," and d == 0:
+                            break
+                        k += 1
+                    end = code[k - 1].end
+                n += 1
+                pat = src[code[i + 1].start:code[pe].end]
+                src = _replace_spans(src, [(code[i].start, code[b].start, "|vx_c%d| { let %s = vx_c%d; " % (n, pat, n)),
+                                           (end, end, " }")])
+                stats["R52"] = stats.get("R52", 0) + 1
+                hit = True
+                break
+        if not hit:
+            return src
+
+
+RULES["R52"] = rule_R52
+RULE_DOC["R52"] = rule_R52.__doc__.strip()
+
+
+def rule_R61(src, stats):
+    """`X.try_into().unwrap()` (X an identifier) -> `vx_try_into_unwrap(X)`: slice -> fixed-size array conversion.  vstd has no usable
+    spec for `<[u8; N]>::try_from(&[u8])`; the shim `vx_try_into_unwrap` (unit raw part / shims) has `requires X@.len() == N`, so the
+    panic of `unwrap()` on a slice of the wrong length becomes a proof obligation, and `ensures r@ == X@`."""
+    code = _toks(src)
+    spans = []
+    for i in range(len(code) - 8):
+        if (code[i].kind == "ident" and [t.text for t in code[i + 1:i + 9]] == [".", "try_into", "(", ")", ".", "unwrap", "(", ")"]
+                and (i == 0 or code[i - 1].text != ".")):
+            spans.append((code[i].start, code[i + 8].end, "vx_try_into_unwrap(%s)" % code[i].text))
+            stats["R61"] = stats.get("R61", 0) + 1
+    return _replace_spans(src, spans)
+
+
+RULES["R61"] = rule_R61
+RULE_DOC["R61"] = rule_R61.__doc__.strip()
 
 
 # --------------------------------------------------------------------------- unit parsing
@@ -685,7 +786,7 @@ def splice_fn(fs, stats, canary=False, stub=False):
         else:
             text = RULES[rid](text, stats)
         if text == before and not optional:
-            raise ExtractError("rule %s no longer applies to %s::%s" % (rid, fs.file, fs.name))
+            stats.setdefault("warnings", []).append({"fn": fs.name, "what": "rule %s no longer applies to %s::%s" % (rid, fs.file, fs.name)})
     vis = fs.opts.get("vis", "pub")
     # --- visibility
     if vis == "pub":
@@ -763,7 +864,8 @@ def splice_fn(fs, stats, canary=False, stub=False):
     loops = _loops(code[body_open:body_close + 1])
     for n, ltext in ({} if stub else fs.loops).items():
         if n > len(loops):
-            raise ExtractError("%s::%s has %d loops, contract refers to loop %d" % (fs.file, fs.name, len(loops), n))
+            stats.setdefault("warnings", []).append({"fn": fs.name, "what": "%s::%s has %d loops, contract refers to loop %d (invariant dropped)" % (fs.file, fs.name, len(loops), n)})
+            continue
         kw, bo, bc = loops[n - 1]
         inserts.append((code[body_open + bo].start, "\n" + ltext.rstrip() + "\n", "loop %d" % n))
         if canary:
@@ -782,7 +884,8 @@ def splice_fn(fs, stats, canary=False, stub=False):
             if code[j].text == pat[0] and [t.text for t in code[j:j + len(pat)]] == pat:
                 hits.append(j)
         if len(hits) < n:
-            raise ExtractError("anchor `%s` #%d not found in %s::%s" % (stmt, n, fs.file, fs.name))
+            stats.setdefault("warnings", []).append({"fn": fs.name, "what": "anchor `%s` #%d not found in %s::%s (proof hint dropped)" % (stmt, n, fs.file, fs.name)})
+            continue
         j = hits[n - 1]
         pos = code[j].start if where == "before" else code[j + len(pat) - 1].end
         inserts.append((pos, "\n" + ptext.rstrip() + "\n", "%s `%s`" % (where, stmt)))
@@ -932,7 +1035,8 @@ def build(unit_path, prelude_paths, canary=False):
             next((m for m in cands if m.get("origin") == "spec"), cands[0] if cands else {"origin": "gen"})
         fixed.append(pick)
         ls = le
-    info = {"unit": unit["name"], "functions": fns, "rewrite_counts": stats}
+    warnings = stats.pop("warnings", [])
+    info = {"unit": unit["name"], "functions": fns, "rewrite_counts": stats, "warnings": warnings}
     return gen, fixed, info
 
 
